@@ -27,6 +27,9 @@ pub struct Worker {
     stderr_path: std::path::PathBuf,
     prop: String,
     tier: Tier,
+    /// request lines this worker process has completed since it was spawned: its state, if
+    /// physis keeps any between calls, is a function of exactly this list
+    pub history: Vec<String>,
 }
 
 fn run_dir() -> std::path::PathBuf {
@@ -70,7 +73,7 @@ impl Worker {
                 }
             }
         });
-        Worker { child, stdin, rx, stderr_path, prop: prop.to_string(), tier }
+        Worker { child, stdin, rx, stderr_path, prop: prop.to_string(), tier, history: vec![] }
     }
 
     fn respawn(&mut self) {
@@ -103,7 +106,12 @@ impl Worker {
     /// (with operation markers on) and only then turned into a violation result for `seed`.
     pub fn request(&mut self, line: &str, seed: u64) -> RunResult {
         match self.request_once(line) {
-            Ok(r) => r,
+            Ok(r) => {
+                if !line.starts_with('P') {
+                    self.history.push(line.to_string());
+                }
+                r
+            }
             Err(first) => {
                 self.respawn();
                 let prop = self.prop.clone();
@@ -286,6 +294,9 @@ pub struct Agg {
     pub peak_growth: u64,
     pub leak_checks: u64,
     pub violations: Vec<(u64, Violation, Option<String>)>,
+    /// seed of a failing scenario -> request lines its worker had completed before it
+    /// signature -> request lines the worker had completed before the first scenario that failed so
+    pub histories: BTreeMap<u64, Vec<String>>,
     pub sigs_with_doc: HashSet<String>,
     /// seed -> (log hash, verdict signature) for the determinism self-test
     pub per_seed: BTreeMap<u64, (u64, u64, String)>,
@@ -361,6 +372,9 @@ impl Agg {
         self.leak_checks += o.leak_checks;
         self.violations.extend(o.violations);
         self.sigs_with_doc.extend(o.sigs_with_doc);
+        for (k, v) in o.histories {
+            self.histories.entry(k).or_insert(v);
+        }
         self.per_seed.extend(o.per_seed);
     }
 }
@@ -427,6 +441,12 @@ pub fn run_batch(spec: &BatchSpec) -> Agg {
                 }
                 let r = w.run_directed(d);
                 note(&r);
+                if let Some(v) = &r.violation {
+                    // same condition as Agg::add uses for keeping the document
+                    if !agg.sigs_with_doc.contains(&v.sig) && !w.history.is_empty() {
+                        agg.histories.insert(r.seed, w.history[..w.history.len() - 1].to_vec());
+                    }
+                }
                 agg.add(r);
             }
             loop {
@@ -441,6 +461,12 @@ pub fn run_batch(spec: &BatchSpec) -> Agg {
                 }
                 let r = w.run_seed(base.wrapping_add(i));
                 note(&r);
+                if let Some(v) = &r.violation {
+                    // same condition as Agg::add uses for keeping the document
+                    if !agg.sigs_with_doc.contains(&v.sig) && !w.history.is_empty() {
+                        agg.histories.insert(r.seed, w.history[..w.history.len() - 1].to_vec());
+                    }
+                }
                 agg.add(r);
             }
             total.lock().unwrap().merge(agg);
